@@ -284,7 +284,7 @@ def frame_clauses(vc, p, want, raw):
     vc.prove("reported_length_is_the_number_of_octets", len(p) == len(raw))
 
 
-@contract("HDAP.as_bytes", "okdmr.dmrlib.hytera.pdu.hdap:HDAP.as_bytes", ["C12"], stubs=["HDAP.get_hdap_checksum"])
+@contract("HDAP.as_bytes", "okdmr.dmrlib.hytera.pdu.hdap:HDAP.as_bytes", ["C12", "C19"], stubs=["HDAP.get_hdap_checksum"])
 def hdap_frame(vc, family, kind, **kw):
     p, want = build(vc, family, kind, **kw)
     raw = p.as_bytes()
@@ -488,7 +488,7 @@ hrnp_checksum.shapes = _hck_shapes
 
 
 # ---------------------------------------------------------------------------------------------- HRNP frames
-@contract("HRNP.as_bytes", "okdmr.dmrlib.hytera.pdu.hrnp:HRNP.as_bytes", ["C12"], stubs=["HRNP.verify_checksum", "HDAP.get_hdap_checksum"])
+@contract("HRNP.as_bytes", "okdmr.dmrlib.hytera.pdu.hrnp:HRNP.as_bytes", ["C12", "C19"], stubs=["HRNP.verify_checksum", "HDAP.get_hdap_checksum"])
 def hrnp_frame(vc, opcode, inner=None, anylen=None):
     data, inner_raw = None, b""
     if opcode == "DATA":
@@ -533,7 +533,7 @@ OPTION_LISTS = [(("DeviceID", 4), ("ChannelID", 1)), (("RTP", 0),), (("DeviceID"
                 (("ChannelID", 1), ("DeviceID", 4), ("ChannelID", 1)), (("RTP", 0), ("RTP", 0)), (("XPTIndex", 1), ("XPTIndex", 1), ("XPTIndex", 1))]
 
 
-@contract("HSTRP.as_bytes", "okdmr.dmrlib.hytera.pdu.hstrp:HSTRP.as_bytes", ["C12"], stubs=["HDAP.get_hdap_checksum"])
+@contract("HSTRP.as_bytes", "okdmr.dmrlib.hytera.pdu.hstrp:HSTRP.as_bytes", ["C12", "C19"], stubs=["HDAP.get_hdap_checksum"])
 def hstrp_frame(vc, kind, opts=(), inner=None):
     """precondition (in-range): the option flag of the type octet is set exactly when the option list is not empty - a
     set flag with an empty list has no representation in the format (the parser reads the payload as options)"""
